@@ -296,6 +296,9 @@ MUST_FIRE += [
     ("m124", ["C18"], ["K19"], rep1(S + "f2_algebra.py", "                A[i, :] = (A[i, :] + A[i, k]*A[h, :]) % 2", "                A[i, :] = A[i, :] + A[i, k]*A[h, :]"), "row update without the reduction modulo 2"),
     ("m125", ["C09"], ["W9"], rep1(S + "mub_circuits.py", "    return circuit_lookup.mub_circuit_lookup(num_qubits, connectivity).mubs", "    return circuit_lookup.mub_circuit_lookup(num_qubits, connectivity).circuits"), "get_mubs hands out the circuits"),
     ("m126", ["C09"], ["K20"], rep1(S + "circuit_lookup.py", "        for line in lines[1:]:\n            if len(line) == 0:", "        for line in lines[2:]:\n            if len(line) == 0:"), "MUB record skips the first basis line"),
+    ("m127", ["C10"], ["S3"], rep1(S + "tomography.py", "    density_matrix = np.zeros(shape=[2**num_qubits, 2**num_qubits], dtype=np.complex128)", "    density_matrix = np.ones(shape=[2**num_qubits, 2**num_qubits], dtype=np.complex128)"), "density matrix accumulated on top of an all-ones array"),
+    ("m128", ["C10"], ["U1"], rep1(S + "tomography.py", "        for index, circuit in enumerate(self.circuits):", "        for index, circuit in enumerate(self.mubs):"), "fitter reads an attribute nobody defines"),
+    ("m129", ["C18"], ["K18"], rep1(S + "f2_algebra.py", "    for i in range(cols):\n        if i not in pivot_cols:", "    for i in range(1, cols):\n        if i not in pivot_cols:"), "column 0 never considered as a free column"),
     ("m95", ["C19"], ["K12"], rep1(S + "graph.py", "    def compress(self) -> int:", "    def compress(self) -> int:\n        if getattr(self, \"_id\", None) is not None:\n            return self._id\n        self._id = self._compress()\n        return self._id\n\n    def _compress(self) -> int:"), "graph id remembered by the object and never invalidated"),
     ("m72", ["C13"], ["A3"], rep1(S + "circuit_lookup.py", "result.circuits = [circuit.copy() for circuit in self.circuits]", "result.circuits = list(self.circuits)"), "fresh list of the cached circuits"),
 ]
